@@ -436,6 +436,9 @@ class FileDomain(NormDomain):
         return NormDomain.unary(self, op, a, node)
 
     def compare(self, op, a, b, node):
+        if isinstance(op, (ast.Is, ast.IsNot)) and isinstance(a, (FArr, BytesV, FileH)) and isinstance(b, (FArr, BytesV, FileH)):
+            # arrays are objects: two names are the same array when they hold the same object (a view is another object)
+            return (a is b) == isinstance(op, ast.Is)
         if isinstance(a, FArr) or isinstance(b, FArr):
             if isinstance(op, (ast.Is, ast.IsNot, ast.In, ast.NotIn)):
                 return None
@@ -1708,6 +1711,14 @@ class FileDomain(NormDomain):
                     return x
                 if isinstance(x, Const) and isinstance(x.v, (int, float)) and f in ('abs', 'absolute', 'fabs', 'negative', 'square'):
                     return Const({'abs': abs, 'absolute': abs, 'fabs': abs, 'negative': lambda z: -z, 'square': lambda z: z * z}[f](x.v))
+                if isinstance(x, Sym) and x.r.is_zero() and f in ('abs', 'absolute', 'fabs', 'negative', 'square', 'sqrt'):
+                    return Const(0)
+                if isinstance(x, Const) and isinstance(x.v, complex) and f in ('abs', 'absolute'):
+                    return Const(abs(x.v)) if abs(x.v) == int(abs(x.v)) else self.interp.call_value(ExtRef('numpy.' + f), [x], {}, node, None)
+                if isinstance(x, Sym) and f in ('abs', 'absolute', 'fabs') and x.r.num.is_const() and x.r.den.is_const():
+                    c = x.r.num.const_value() / x.r.den.const_value()
+                    if getattr(c, 'imag', 0) == 0:
+                        return self.lift(Rat(self.R.const(abs(Fraction(c.real) if isinstance(c, complex) else c))))
                 return self.interp.call_value(ExtRef('numpy.' + f), [x], {}, node, None)
             return self.emap(one, a)
         if f == 'where' and len(args) == 3:
